@@ -1,6 +1,7 @@
 (* C05 — Operator precedence, associativity and grouping follow the documented table (and C09's parentheses clause). *)
 Require Import Parser Api Shape Build Printer.
-Require Import ParserRoundTrip ParserRoundTripV.
+Require Import ParserRoundTrip ParserRoundTripV PrintedText.
+Require Lex LexWs.
 From Coq Require Import List String.
 Import ListNotations.
 
@@ -19,6 +20,17 @@ Theorem C05_printed_tree_parses_to_itself : forall (o : oracle) (t : qt), wfq o 
   parse_toks o "" (pr t ++ [eof]) = PTree (want o t).
 Proof. exact printed_tree_parses. Qed.
 
+(* and through the lexer, for ASCII text: the printed tokens written with single blanks between them (operators in their
+   canonical spelling) are the query text `text_of (pr t)`; if every printed token is what the lexer makes of its own text
+   (LexWs.lexes_alone: true of ordinary words, numbers, quoted strings and the operator spellings under Go's classification -
+   see the Example in Proofs/PrintedText.v), Parse of that text returns exactly the expected tree.
+   Oracle fact: the four whitespace runes are not letters or digits *)
+Theorem C05_printed_text_parses_to_the_tree : forall (o : oracle) (cl : Lex.classes),
+  (forall r, Lex.is_space r = true -> Lex.is_alnum cl r = false) ->
+  forall t : qt, wfq o t -> Forall (LexWs.lexes_alone cl) (map ltok (pr t)) ->
+  Api.parse o cl "" (text_of (pr t)) = PTree (want o t).
+Proof. exact printed_text_parses. Qed.
+
 (* a parenthesised OR-chain of two or more plain values under a field is the value list IN(field, LIST[...]) *)
 Theorem C05_value_list : forall (o : oracle) (f ct v : token) (vs : list token),
   is_plain (parse_literal o v) = true -> forallb is_plain (map (parse_literal o) vs) = true -> vs <> [] ->
@@ -27,4 +39,5 @@ Proof. exact list_tree. Qed.
 
 Print Assumptions C05_print_parse_roundtrip.
 Print Assumptions C05_printed_tree_parses_to_itself.
+Print Assumptions C05_printed_text_parses_to_the_tree.
 Print Assumptions C05_value_list.
